@@ -71,6 +71,14 @@ def sessions_for(res):
         for v in vs:
             body = rng.choice(RARE)
             out.append(([["set_mathml", X.math(rng.choice(RARE))], ["get_spoken_text"], ["get_braille", ""], ["get_overview_text"], ["set_preference", k, v]], body))
+    # every ordered pair of languages (regional variants share rule files with their language and differ in the Unicode
+    # table only): warm up in the first, switch, speak in the second
+    paren = "<mrow><mo>(</mo><mi>x</mi><mo>+</mo><mn>1</mn><mo>)</mo><mo>[</mo><mi>y</mi><mo>]</mo><mo>&#x22C8;</mo><mn>3</mn><mtext>tim</mtext></mrow>"
+    for l1 in LANGS:
+        for l2 in LANGS:
+            if l1 != l2:
+                out.append(([["set_preference", "Language", l1], ["set_mathml", X.math(paren)], ["get_spoken_text"], ["do_navigate_command", "ZoomIn"],
+                             ["set_preference", "Language", l2]], paren))
     for body in RARE[3:6]:
         for k, vs in PREFS[4:6] + PREFS[:1]:
             for v in vs:
